@@ -13,9 +13,13 @@ mod c23_action_state;
 #[cfg(kani)]
 mod c26_decimal;
 #[cfg(kani)]
+mod c26_triples;
+#[cfg(kani)]
 mod c27_openness;
 #[cfg(kani)]
 mod c28_chainlink;
+#[cfg(kani)]
+mod c28_convert;
 #[cfg(kani)]
 mod c34_fixed_map;
 #[cfg(kani)]
